@@ -1,0 +1,49 @@
+//go:build verif
+
+package search
+
+import "github.com/Tom-Johnston/mamba/graph"
+
+// Verification hook (build tag "verif" only). Add-only; nothing here changes the package's behaviour.
+// It runs isCanonical and addAugmentations on the iterator state the search is in when it has just added the
+// last vertex of a given graph, so that the two functions can be examined on graphs far beyond the reach of a
+// full search.
+
+//verifIterFor returns an iterator (with room for one more vertex) whose current graph has been built from the
+//one-vertex graph by AddVertex exactly as Next does it, together with the neighbours of the last vertex.
+func verifIterFor(g graph.Graph) (*GraphIterator, []int) {
+	nv := g.N()
+	never := func(*graph.DenseGraph) bool { return false }
+	iter := WithPruning(nv+1, 0, 1, never, never)
+	iter.first = false
+	iter.sg.G.NumberOfVertices = 1
+	iter.sg.G.DegreeSequence = iter.sg.G.DegreeSequence[:1]
+	for v := 1; v < nv; v++ {
+		iter.v = iter.v[:0]
+		for u := 0; u < v; u++ {
+			if g.IsEdge(u, v) {
+				iter.v = append(iter.v, u)
+			}
+		}
+		iter.sg.G.AddVertex(iter.v)
+		clearAutomorphismGroup(iter.sg)
+	}
+	return iter, iter.v
+}
+
+//VerifStep takes a graph g on at least 2 vertices and returns
+//accept: the verdict of isCanonical for g seen as g minus its last vertex plus that vertex;
+//numAfter, after: if accepted, what addAugmentations returns and pushes when it is called right afterwards (as Next does, with whatever automorphism data isCanonical left behind);
+//numFresh, fresh: what addAugmentations returns and pushes for g when no automorphism data is cached (as after Load).
+func VerifStep(g graph.Graph) (accept bool, numAfter int, after []uint, numFresh int, fresh []uint) {
+	iter, aug := verifIterFor(g)
+	accept = isCanonical(iter.sg, aug, iter.op, iter.storage, iter.options)
+	if accept {
+		numAfter = addAugmentations(iter.sg, &iter.choices, iter.ds, iter.op, iter.storage, iter.options)
+		after = append([]uint{}, iter.choices...)
+	}
+	iter, _ = verifIterFor(g)
+	numFresh = addAugmentations(iter.sg, &iter.choices, iter.ds, iter.op, iter.storage, iter.options)
+	fresh = append([]uint{}, iter.choices...)
+	return accept, numAfter, after, numFresh, fresh
+}
